@@ -18,7 +18,7 @@ use std::cell::RefCell;
 
 pub struct C04;
 
-pub const CONTEXTS: [(&str, &str); 27] = [
+pub const CONTEXTS: [(&str, &str); 32] = [
     ("body-last", "@"),
     ("if-consequent", "(if #t @ 'no)"),
     ("if-alternate", "(if #f 'no @)"),
@@ -45,6 +45,12 @@ pub const CONTEXTS: [(&str, &str); 27] = [
     ("apply", "APPLY"),
     ("eval", "EVAL"),
     ("apply-leading", "APPLY2"),
+    // the tail call sits in a tail context *inside* the evaluated datum
+    ("eval-of-begin", "EVAL-BEGIN"),
+    ("eval-of-single-begin", "EVAL-BEGIN1"),
+    ("eval-of-if", "EVAL-IF"),
+    ("eval-of-let", "EVAL-LET"),
+    ("eval-of-eval", "EVAL-EVAL"),
     ("cond-test-only-then-else", "(cond (#f) (else @))"),
 ];
 
@@ -87,6 +93,11 @@ impl LoopSpec {
                 }
             }
             "EVAL" => format!("(eval '({} {}))", name, args.join(" ")),
+            "EVAL-BEGIN" => format!("(eval '(begin 1 2 ({} {})))", name, args.join(" ")),
+            "EVAL-BEGIN1" => format!("(eval '(begin ({} {})))", name, args.join(" ")),
+            "EVAL-IF" => format!("(eval '(if (= 1 1) ({} {}) 'no))", name, args.join(" ")),
+            "EVAL-LET" => format!("(eval '(let ((c04-x 1)) ({} {})))", name, args.join(" ")),
+            "EVAL-EVAL" => format!("(eval '(eval '({} {})))", name, args.join(" ")),
             _ => format!("({} {})", name, args.join(" ")),
         }
     }
@@ -103,7 +114,7 @@ impl LoopSpec {
             let mut wrappers: Vec<&str> = vec![];
             for ci in &self.ctxs[i] {
                 let t = CONTEXTS[*ci].1;
-                if t == "APPLY" || t == "EVAL" || t == "APPLY2" {
+                if t == "APPLY" || t == "APPLY2" || t.starts_with("EVAL") {
                     call_form = t;
                 } else {
                     wrappers.push(t);
@@ -276,7 +287,7 @@ impl Prop for C04 {
         "C04"
     }
     fn rule(&self) -> &'static str {
-        "grid: every single tail context (27: body-last, if arms, cond clause/else/=>, case clause/else/=>, and/or last operand, when, unless, let, let*, letrec, named let, begin, lambda literal, call/cc receiver, apply, eval, ...) x caller arity 0..4 x callee arity 0..4 x rest flags, self recursion and 2-procedure mutual recursion, at n=10 and n=10^3 (a sample also at 10^5); random compositions of depth 1-3 over 1-3 procedures. Stack high-water (hook) at 10^3/10^5 must be within 16 slots of n=10; value = closed form = non-tail twin. Non-trivial: a context other than plain if/body-last; distinct by loop id."
+        "grid: every single tail context (32: body-last, if arms, cond clause/else/=>, case clause/else/=>, and/or last operand, when, unless, let, let*, letrec, named let, begin, lambda literal, call/cc receiver, apply, eval, eval of a begin / if / let / eval whose tail position holds the call, ...) x caller arity 0..4 x callee arity 0..4 x rest flags, self recursion and 2-procedure mutual recursion, at n=10 and n=10^3 (a sample also at 10^5); random compositions of depth 1-3 over 1-3 procedures. Stack high-water (hook) at 10^3/10^5 must be within 16 slots of n=10; value = closed form = non-tail twin. Non-trivial: a context other than plain if/body-last; distinct by loop id."
     }
     fn assumptions(&self) -> Vec<&'static str> {
         vec![
